@@ -103,9 +103,13 @@ def h_filter(f: str, g: str, c0: int, c1: int, c2: int, c3: int) -> bool:
     cur_is_main = True
     k = 0
     while k < NLINES:
-        kind = ch.pick(4)
+        kind = ch.pick(5)
         if kind == 0:
             lines.append("int x" + str(k) + ";\n")
+            expect_keep.append(cur_is_main)
+        elif kind == 4:
+            # a directive the backends pass through: content, not a line marker, even though it starts with '#' and has quotes
+            lines.append('#pragma comment(lib, "' + g + '")\n')
             expect_keep.append(cur_is_main)
         elif kind == 1:
             lines.append(marker(BACKEND, f, 5 + k, " 2" if BACKEND == "gcc" else ""))
@@ -167,6 +171,8 @@ def filter_concrete(backend, f, g, kinds):
     for k, kind in enumerate(kinds):
         if kind == 0:
             lines.append(f"int x{k};\n"); keep.append(cur)
+        elif kind == 4:
+            lines.append('#pragma comment(lib, "' + g + '")\n'); keep.append(cur)
         elif kind == 1:
             lines.append(marker(backend, f, 5 + k, " 2" if backend == "gcc" else "")); cur = True; keep.append(True)
         elif kind == 2:
@@ -314,7 +320,7 @@ from cxxheaderparser.simple import parse_file
 from cxxheaderparser.options import ParserOptions
 from cxxheaderparser import preprocessor as pp
 
-def e2e(backend, main_rel, inc_rel, use_subdir_include_path=False, retain=False, depfile=False):
+def e2e(backend, main_rel, inc_rel, use_subdir_include_path=False, retain=False, depfile=False, sysinc=False):
     """main includes inc; returns (names of variables seen, line of main_after, depfile text or None)"""
     d = tempfile.mkdtemp(prefix="vfc19_")
     try:
@@ -326,7 +332,7 @@ def e2e(backend, main_rel, inc_rel, use_subdir_include_path=False, retain=False,
             fp.write("#define DECL(n) int n\nint from_inc;\n")
         rel = os.path.relpath(incp, os.path.dirname(mainp))
         with open(mainp, "w") as fp:
-            fp.write('int main_before;\n#include "%s"\n\nDECL(from_macro); int main_after;\n' % rel)
+            fp.write('int main_before;\n#include "%s"\n%s\nDECL(from_macro); int main_after;\n' % (rel, "#include <stddef.h>" if sysinc else ""))
         kw = dict(retain_all_content=retain)
         dep = os.path.join(d, "out.d")
         if depfile:
@@ -402,7 +408,7 @@ def run(tier):
         def one(backend):
             g = dict(BACKEND=backend, MAXF=maxf, MAXG=maxg, NLINES=nlines)
             tw_ = chrun.run(__name__, "h_filter", [()], timeout=60, globs=dict(g, TWIN=True), pool=pool)
-            shards = [(a,) for a in range(4)] if nlines < 3 else [(a, b) for a in range(3) for b in range(4)] + [(3,)]
+            shards = [(a, b) for a in (0, 1, 2, 4) for b in range(5)] + [(3,)]
             res_ = chrun.run(__name__, "h_filter", shards, timeout=(90 if tier == "quick" else 1200), globs=g, pool=pool)
             return backend, tw_, res_
 
@@ -430,7 +436,7 @@ def run(tier):
         ch = Chooser(vals, prefix=())
         kinds = []
         for _ in range(nlines):
-            k = ch.pick(4)
+            k = ch.pick(5)
             if k == 3:
                 break
             kinds.append(k)
@@ -487,12 +493,14 @@ def run(tier):
                 body = ("from vf.props import c19\n" f"bad = c19.e2e_judge({backend!r}, {main_rel!r}, {inc_rel!r})\nprint(bad)\nsys.exit(1 if bad else 0)\n")
                 ck.violation(bad, ck.write_replay(body), key=dict(kind="e2e", backend=backend, relation=rel))
         # depfile end to end
-        names, lines, deptext = e2e(backend, "main.h", "inc dir/o ther.h", depfile=True)
+        sysinc = backend == "gcc"  # pcpp does not resolve system headers (passes the include through)
+        names, lines, deptext = e2e(backend, "main.h", "inc dir/o ther.h", depfile=True, sysinc=sysinc)
         n_e2e += 1
         ok = deptext is not None and "tgt.o" in deptext and "main.h" in deptext and "inc\\ dir/o\\ ther.h" in deptext
+        ok = ok and (not sysinc or "stddef.h" in deptext)
         if not ok:
-            body = ("from vf.props import c19\n" f"names, lines, dep = c19.e2e({backend!r}, 'main.h', 'inc dir/o ther.h', depfile=True)\nprint(dep)\n"
-                    "sys.exit(0 if (dep and 'tgt.o' in dep and 'main.h' in dep and 'inc\\\\ dir/o\\\\ ther.h' in dep) else 1)\n")
+            body = ("from vf.props import c19\n" f"names, lines, dep = c19.e2e({backend!r}, 'main.h', 'inc dir/o ther.h', depfile=True, sysinc={sysinc!r})\nprint(dep)\n"
+                    f"sys.exit(0 if (dep and 'tgt.o' in dep and 'main.h' in dep and 'inc\\\\ dir/o\\\\ ther.h' in dep and (not {sysinc!r} or 'stddef.h' in dep)) else 1)\n")
             ck.violation(f"{backend}: depfile does not name target and every file read: {deptext!r}", ck.write_replay(body), key=dict(kind="e2e-depfile", backend=backend))
     ck.sub("end to end through g++ / pcpp with parse_file (names, line numbers, retain_all_content, depfile)", "replay",
            "holds" if not [v for v in ck.violations if v["key"]["kind"].startswith("e2e")] else "flagged", runs=n_e2e, wall_s=round(time.time() - t, 1))
